@@ -17,6 +17,19 @@ on an `OutputPort`); storing directly below an emitted value that is not a mappi
 -/
 namespace Ports
 
+/-- the second half of `get_port`, once the port `p` called `seg` is there (`ports1` are the ports of `self`):
+return it when the name ends here, otherwise recurse into it (`rec` is the recursive call on the remaining name) -/
+def getPortStep (seg : String) (p : Port) (ports1 : PortList) (rest : List String)
+    (rec : NsA → PortList → PortList × Except Err Port) : PortList × Except Err Port :=
+  match rest with
+  | [] => (ports1, .ok p)                                     -- `return self[port_name]`
+  | _ :: _ =>
+      match p with
+      | .leaf _ => (ports1, .error .attributeError)           -- an `OutputPort` has no `get_port`
+      | .ns a' sub =>
+          let r := rec a' sub
+          (setKey seg (.ns a' r.1) ports1, r.2)
+
 /-- `get_port(name, create_dynamically=True)` on the namespace with attributes `a` and ports `ports`, `segs` being
 `name.split('.')`.  Returns the ports after the dynamic creations (kept also when the walk fails) and the port found. -/
 def getPort (a : NsA) : PortList → List String → PortList × Except Err Port
@@ -24,23 +37,12 @@ def getPort (a : NsA) : PortList → List String → PortList × Except Err Port
   | ports, seg :: rest =>
       if seg = "" ∧ rest = [] then (ports, .error .valueError)        -- `if not name`: 'name cannot be an empty string'
       else
-        let found : PortList × Option Port :=
-          match lookup seg ports with
-          | some p => (ports, some p)
-          | none =>
-              if !a.dynamic then (ports, none)               -- 'port does not exist in port namespace'
-              else (setKey seg (.ns a []) ports, some (.ns a []))   -- `self[port_name] = self.__class__(...)`
-        match found with
-        | (ports1, none) => (ports1, .error .valueError)
-        | (ports1, some p) =>
-            match rest with
-            | [] => (ports1, .ok p)
-            | _ :: _ =>
-                match p with
-                | .leaf _ => (ports1, .error .attributeError)          -- `OutputPort` has no `get_port`
-                | .ns a' sub =>
-                    let r := getPort a' sub rest
-                    (setKey seg (.ns a' r.1) ports1, r.2)
+        match lookup seg ports with
+        | some p => getPortStep seg p ports rest (fun a' sub => getPort a' sub rest)
+        | none =>
+            if !a.dynamic then (ports, .error .valueError)   -- 'port does not exist in port namespace'
+            else                                             -- `self[port_name] = self.__class__(...)`: attributes of `self`
+              getPortStep seg (.ns a []) (setKey seg (.ns a []) ports) rest (fun a' sub => getPort a' sub rest)
 
 /-- the storage loop of `out`: `for sub_space in namespace: output_namespace = output_namespace.setdefault(sub_space, {})`
 then `output_namespace[port_name] = value` -/
@@ -99,13 +101,13 @@ def out (vd : Nat → V → Bool) (st : OutSt) (path : List String) (v : V) : Ou
           | .error e => (st1, .error e)
           | .ok outs => ({ st1 with outputs := outs, emitted := (path, v, dv.1) :: st.emitted }, .ok dv.1)
 
-/-- a sequence of `out` calls made by the step function, errors caught by the caller; results newest first -/
+/-- a sequence of `out` calls made by the step function, errors caught by the caller; results in call order -/
 def outs (vd : Nat → V → Bool) (st : OutSt) : List (List String × V) → OutSt × List (Except Err Bool)
   | [] => (st, [])
   | (path, v) :: rest =>
       let r := out vd st path v
       let rr := outs vd r.1 rest
-      (rr.1, rr.2 ++ [r.2])
+      (rr.1, r.2 :: rr.2)
 
 inductive Label | finished | excepted
 deriving Repr, DecidableEq, Inhabited
